@@ -139,11 +139,14 @@ func StepWorkflowPaths(wf *workflow.Workflow) map[string]string {
 		if ok1 {
 			kind, ok1 := stepDataMap["kind"]
 			if ok1 {
-				kindString := kind.(string)
-				if kindString == "foreach" {
-					subworkflowPath := stepDataMap["workflow"]
-					subworkflowPathString := subworkflowPath.(string)
-					stepFilePaths[subworkflowPathString] = subworkflowPathString
+				// Malformed steps (non-string kind, missing or non-string workflow path)
+				// are skipped here; they are rejected when the steps are validated.
+				kindString, isString := kind.(string)
+				if isString && kindString == "foreach" {
+					subworkflowPathString, isString := stepDataMap["workflow"].(string)
+					if isString {
+						stepFilePaths[subworkflowPathString] = subworkflowPathString
+					}
 				}
 			}
 		}
